@@ -204,6 +204,34 @@ def check_design(ctx, d, rng, label):
                           'documented estimate gives %r' % (mem_.name, rp, wp, got_d, want_d), replay)
             ok = False
             break
+    # default delay of every other gate: the calibrated table (constants for the bitwise gates, a*log2(width)+b for
+    # + - < > =, the standard-cell multiplier estimate), evaluated on the width of the first operand
+    import math as _m
+
+    def default_delay(op, w_):
+        const = {'~': 48.5, '&': 98.5, '|': 105.3, '^': 135.07, 'n': 66.0, 'w': 0, 'x': 138.0, 'c': 0, 's': 0}
+        if op in const:
+            return const[op]
+        if op in '+-':
+            return 184.0 * _m.log2(w_) + 18.9
+        if op in '<>':
+            return 101.9 * _m.log2(w_) + 105.4
+        if op == '=':
+            return 60.1 * _m.log2(w_) + 147
+        if op == '*':
+            return 98.57 if w_ == 1 else 200.17 if w_ == 2 else 549.1 * _m.log2(w_) - 391.7
+        return None
+    for n_ in sorted(blk.logic, key=str):
+        want_d = default_delay(n_.op, len(n_.args[0])) if n_.args else None
+        if want_d is None or n_.op in 'm@r':
+            continue
+        got_d = ta2.timing_map[n_.dests[0]] - max(ta2.timing_map[a_] for a_ in n_.args)
+        ctx.count('default-delay-op', n_.op)
+        if abs(got_d - want_d) > 1e-6 * max(1.0, abs(want_d)):
+            ctx.violation('timing-default-gate', 'default delay of the %s gate on %d-bit operands (net %s) is %r, the calibrated table gives %r' % (
+                n_.op, len(n_.args[0]), str(n_)[:60], got_d, want_d), replay)
+            ok = False
+            break
     # fanout = number of net argument positions reading the wire
     # (in half of the designs an unrelated block is the working block while fanout() is called)
     from vlib import passlib as _pl
@@ -328,6 +356,46 @@ def mem_loop_design(rng):
     return d
 
 
+def reanalysis_after_edit(ctx):
+    """an analysis describes the block as it is now: a design is analysed, extended (its memory gains read ports), and
+    analysed again -- the second analysis equals the analysis of the same extended design built in one go in a fresh
+    block, and the read delay follows the documented estimate for the memory's present number of ports"""
+    rng = ctx.rng
+
+    def build(aw, dw, extra, analyse_first):
+        pyrtl.reset_working_block()
+        mem = pyrtl.MemBlock(dw, aw, name='m', asynchronous=True, max_read_ports=None, max_write_ports=None)
+        addrs = [pyrtl.Input(aw, 'a%d' % i) for i in range(4)]
+        din, we = pyrtl.Input(dw, 'din'), pyrtl.Input(1, 'we')
+        o0 = pyrtl.Output(dw, 'o0')
+        o0 <<= mem[addrs[0]]
+        mem[addrs[1]] <<= pyrtl.MemBlock.EnabledWrite(din, we)
+        blk = pyrtl.working_block()
+        with contextlib.redirect_stdout(io.StringIO()):
+            if analyse_first:
+                analysis.TimingAnalysis(block=blk)
+            for i in range(extra):
+                o = pyrtl.Output(dw + 1, 'x%d' % i)
+                o <<= mem[addrs[(2 + i) % 4]] + din
+            ta = analysis.TimingAnalysis(block=blk)
+        return {w.name: t for w, t in ta.timing_map.items() if isinstance(w, pyrtl.Output)}, ta.max_length()
+    for k in range(ctx.n(12, 80)):
+        aw, dw, extra = rng.randint(1, 6), rng.randint(1, 9), rng.randint(1, 3)
+        replay = {'kind': 'reanalysis', 'aw': aw, 'dw': dw, 'extra_read_ports': extra}
+        now, len_now = build(aw, dw, extra, True)
+        fresh, len_fresh = build(aw, dw, extra, False)
+        ctx.evaluations += 1
+        ctx.count('reanalysis', 'read-ports=%d' % (1 + extra))
+        rp = 1 + extra
+        want_d = 270 * 0.130 ** 1.38 * (2 ** aw * dw) ** 0.25 * rp ** 1.30 + 1.05
+        if now != fresh or abs(now['o0'] - want_d) > 1e-6 * want_d or abs(len_now - len_fresh) > 1e-9:
+            bad = sorted(n_ for n_ in fresh if now.get(n_) != fresh[n_])[:1] or ['o0']
+            ctx.violation('timing-reanalysis', 'a memory analysed with 1 read port, then given %d more: the second TimingAnalysis gives %r for wire %s, '
+                          'the analysis of the same design built in a fresh block gives %r (read delay for %d ports: %r)' % (
+                              extra, now.get(bad[0]), bad[0], fresh.get(bad[0]), rp, want_d), replay)
+            return
+
+
 def main(ctx):
     proofs_ok = proof_gate(ctx, gen_modules=[])
     rng = ctx.rng
@@ -352,6 +420,8 @@ def main(ctx):
         ctx.sample({'design': desc})
         if len(ctx.violations) >= 6:
             break
+    if len(ctx.violations) < 6:
+        reanalysis_after_edit(ctx)
     tb, tn = getattr(ctx, 'tie_bad', 0), getattr(ctx, 'tie_n', 0)
     ctx.oblige('tie:TimingAnalysis.timing_map = Lean Analysis.timingMap', tb == 0, '%d/%d designs differ' % (tb, tn))
     ctx.oblige('property:timing = longest path, critical paths attain it, max_freq formula, paths = simple net paths, fanout',
